@@ -407,6 +407,25 @@ slab_h (int fi)
         }
       snprintf (hp[i], sizeof hp[i], "%s", h + hash_off (method_of (h), h));
     }
+  if (fi == 5)
+    {
+      /* the upper bits of the 24-bit count: v against v + 2^20, 2^21, 2^22, 2^23 (up to 1.6 s per hash) */
+      for (int k = 0; k < 4; k++)
+        {
+          char S2[64];
+          int v = 1 + k, big = v + (1 << (20 + k));
+          snprintf (S2, sizeof S2, "_%c%c%c%csalt", A64[big & 63], A64[(big >> 6) & 63], A64[(big >> 12) & 63], A64[(big >> 18) & 63]);
+          char *h = hash ("pw", S2, d1);
+          vh_stat ("cost_values", 1);
+          if (h && !strcmp (h + hash_off (method_of (h), h), hp[v - hfields[fi].lo]))
+            {
+              snprintf (sig, sizeof sig, "salt-or-cost-not-in-hash/%s/method=%s", hfields[fi].name, vh_methods[m].name);
+              vh_viol (sig, "{\"method\":\"%s\",\"what\":\"two values of the cost field give the same hash part\",\"value_a\":%d,\"value_b\":%d,\"setting_a\":%s,\"setting_b\":%s,\"replay\":\"%s\"}",
+                       vh_methods[m].name, v, big, vh_jstr (st[v - hfields[fi].lo]), vh_jstr (S2), rp);
+              return;
+            }
+        }
+    }
   for (int a = 0; a < n; a++)
     for (int b = a + 1; b < n; b++)
       if (!strcmp (hp[a], hp[b]))
